@@ -41,7 +41,7 @@ def leafsets_files(ctx, inst, k, path):
 
 def run(ctx):
     ctx.rule = ("(instance, Goldilocks-valued proof leaf, k) with the leaf replaced by value + k*p, k in {1, 2, 2^64, max}; quick: a seeded stride through all "
-                "leaves of two proofs (every class is hit), thorough: every position of one proof per inner circuit (offsets 1 and max) and every third position of the other proofs (all offsets); skipped when value + k*p >= r")
+                "leaves of two proofs (every class is hit), thorough: every position of every proof; skipped when value + k*p >= r")
     ctx.assumptions += ["public inputs are not range-checked by the plain verifier circuit by design (stated in verifier.go); they are C03's subject",
                         "sibling hashes and cap entries are BN254 elements and have no non-canonical encoding below r"]
     thorough = ctx.tier == "thorough"
@@ -89,13 +89,11 @@ def run(ctx):
     jobs = list(targeted)
     for inst in insts:
         if thorough:
-            # every position of one proof per inner circuit with the smallest and the largest offset; every third position of the others
-            # with all four offsets (the sweep is the first thing the verifier does, a rejected run ends there)
+            # every position of every proof with all four offsets (the sweep is the first thing the verifier does, a rejected run ends there:
+            # about 218k runs in about 11 minutes on 16 cores)
             nsh = common.NCPU
-            full = inst in ("testdata", "random")
             for i in range(nsh):
-                jobs.append({"part": "noncanon", "instance": inst, "k": 28, "ks": ["1", "max"] if full else KS, "shard": i, "nshards": nsh,
-                             "stride": 1 if full else 3})
+                jobs.append({"part": "noncanon", "instance": inst, "k": 28, "ks": KS, "shard": i, "nshards": nsh, "stride": 1})
         else:
             for i in range(8):
                 jobs.append({"part": "noncanon", "instance": inst, "k": 4, "ks": [KS[i % 4], KS[(i + 1) % 4]], "shard": i, "nshards": 8, "stride": 7 + (ctx.seed % 5)})
